@@ -6,6 +6,7 @@ import (
 	"bytes"
 	"fmt"
 	"math/big"
+	"sync"
 	"testing"
 
 	"pgregory.net/rapid"
@@ -19,7 +20,7 @@ import (
 
 // propSampler feeds scripted candidate streams to the rejection sampler.
 func propSampler(t *rapid.T) {
-	nc := rapid.IntRange(1, 10).Draw(t, "candidates")
+	nc := rapid.IntRange(1, resampleLimit(t)+2).Draw(t, "candidates")
 	var stream []byte
 	var cands []*big.Int
 	firstGood := -1
@@ -57,8 +58,8 @@ func propSampler(t *rapid.T) {
 	if rapid.Bool().Draw(t, "chunked") {
 		rd.Chunks = rapid.SliceOfN(rapid.IntRange(1, 40), 1, 4).Draw(t, "chunks")
 	}
-	// model
-	const maxResamples = 8
+	// model; the retry limit is the library's own constant, measured rather than assumed
+	maxResamples := resampleLimit(t)
 	wantIdx, wantErr := -1, false
 	avail := len(stream) / 32
 	for i := 0; i < maxResamples; i++ {
@@ -88,7 +89,7 @@ func propSampler(t *rapid.T) {
 	s, err := secec.VerifSampleRandomScalar(rd)
 	if wantErr {
 		if err == nil || s != nil {
-			t.Fatalf("sampler returned %v for a stream without an acceptable candidate in its first 8", s)
+			t.Fatalf("sampler returned %v for a stream without an acceptable candidate in its first %d", s, maxResamples)
 		}
 		return
 	}
@@ -101,6 +102,29 @@ func propSampler(t *rapid.T) {
 	if rd.Consumed != 32*(wantIdx+1) {
 		t.Fatalf("sampler consumed %d bytes, want %d", rd.Consumed, 32*(wantIdx+1))
 	}
+}
+
+var (
+	limitOnce sync.Once
+	limitVal  int
+)
+
+// resampleLimit measures how many out-of-range candidates the sampler
+// discards before giving up (an implementation constant the property does not
+// fix): it is fed a long stream of zero candidates.
+func resampleLimit(t *rapid.T) int {
+	limitOnce.Do(func() {
+		rd := &gen.ScriptedReader{Data: make([]byte, 32*200), FailAfter: -1}
+		s, err := secec.VerifSampleRandomScalar(rd)
+		if err == nil || s != nil || rd.Consumed%32 != 0 {
+			return
+		}
+		limitVal = rd.Consumed / 32
+	})
+	if limitVal < 1 || limitVal >= 200 {
+		t.Fatalf("HARNESS-INCONCLUSIVE: could not measure the sampler's retry limit (%d)", limitVal)
+	}
+	return limitVal
 }
 
 func TestC09_Sampler(t *testing.T) { rapid.Check(t, propSampler) }
